@@ -42,7 +42,7 @@ class _Opt:
         pass
 
 
-def stopping(I, n=5, criterion="absolute", ev_period=1, es_period=1, source="metric", deprecated=False, twin=False):
+def stopping(I, n=5, criterion="absolute", ev_period=1, es_period=1, source="metric", deprecated=False, twin=False, other_stop=False):
     import torch
     from qucumber.callbacks import MetricEvaluator, ObservableEvaluator, EarlyStopping, VarianceBasedEarlyStopping, LambdaCallback
     from qucumber.observables import SigmaZ
@@ -72,12 +72,19 @@ def stopping(I, n=5, criterion="absolute", ev_period=1, es_period=1, source="met
             es = EarlyStopping(es_period, tol, patience, ev, name, criterion=criterion)
     seen = []
     rec = LambdaCallback(on_epoch_end=lambda s, ep: seen.append(ep))
+    other_at = I.get("other_at", 0) if other_stop else 0
+
+    def other(s, ep):
+        if ep == other_at:
+            s.stop_training = True
+
+    first_cb = LambdaCallback(on_epoch_end=other)
     epochs = n * ev_period
     data = torch.tensor([[0.0, 1.0], [1.0, 1.0]], dtype=torch.double)
     zero_div = False
     try:
         with contextlib.redirect_stdout(io.StringIO()):
-            st.fit(data, epochs=epochs, pos_batch_size=2, callbacks=[ev, es, rec], optimizer=_Opt)
+            st.fit(data, epochs=epochs, pos_batch_size=2, callbacks=([first_cb] if other_stop else []) + [ev, es, rec], optimizer=_Opt)
     except ZeroDivisionError:
         zero_div = True
     p = int(patience)
@@ -117,6 +124,15 @@ def stopping(I, n=5, criterion="absolute", ev_period=1, es_period=1, source="met
     got = es.last_epoch
     last_seen = seen[-1] if seen else None
     want_last = stop_at if stop_at is not None else epochs
+    if other_stop:
+        oa = int(other_at)
+        if 1 <= oa <= epochs and (stop_at is None or oa <= stop_at):
+            # the other callback's request ends the run at epoch oa; the stopper may or may not have fired at oa itself
+            if last_seen != oa or not st.stop_training:
+                return False, "a stop requested by another callback at epoch %d was lost: ran until %r, stop_training=%r" % (oa, last_seen, st.stop_training)
+            if oa < (stop_at or epochs + 1) and got is not None:
+                return False, "stopper fired at %r although its rule is first met at %r" % (got, stop_at)
+            return True, ""
     if got != stop_at:
         return False, "stopped at %r, rule says %r (patience %d, criterion %s)" % (got, stop_at, p, "variance" if deprecated else criterion)
     if last_seen != want_last or bool(st.stop_training) != (stop_at is not None):
@@ -179,6 +195,8 @@ def specs(tier):
                       kwargs=dict(n=n, criterion="variance", ev_period=pe, es_period=ps, source="observable"), inputs=inputs(True)))
     S.append(dict(name="deprecated-class", module="checks.c18", function="stopping",
                   kwargs=dict(n=n, criterion="variance", source="observable", deprecated=True), inputs=inputs(True)))
+    S.append(dict(name="absolute-with-other-stopper", module="checks.c18", function="stopping", kwargs=dict(n=n, criterion="absolute", source="metric", other_stop=True),
+                  inputs=dict(inputs(False), other_at=("int", 0, n))))
     S.append(dict(name="construction", module="checks.c18", function="construction", kwargs={}, inputs={"patience": ("int", 1, pmax)}))
     S.append(dict(name="twin-off-by-one-reference", module="checks.c18", function="stopping", expect_fail=True,
                   kwargs=dict(n=4, criterion="absolute", source="metric", twin=True),
